@@ -43,6 +43,9 @@ type KGraph struct {
 	implCache    map[*types.Func][]*ssa.Function
 
 	Fallbacks []string // dynamic call sites resolved by signature only
+
+	liveTypes map[*types.Named]bool
+	liveFns   map[*ssa.Function]bool
 }
 
 type KEdge struct {
@@ -76,7 +79,7 @@ func (p *Program) KG() *KGraph {
 		if pk == nil || !IsKeto(pk) || p.IsTestFile(fn.Pos()) {
 			continue
 		}
-		if fn.Synthetic != "" && !strings.Contains(fn.Synthetic, "instance of") && !strings.Contains(fn.Synthetic, "package initializer") {
+		if fn.Synthetic != "" && !strings.Contains(fn.Synthetic, "instance of") && !strings.Contains(fn.Synthetic, "package initializer") && !strings.Contains(fn.Synthetic, "range-over-func") {
 			continue
 		}
 		g.Fns = append(g.Fns, fn)
@@ -917,4 +920,118 @@ func (r *KReach) Path(f *ssa.Function) string {
 		f = e.Caller
 	}
 	return strings.Join(parts, " ")
+}
+
+// ---- liveness (rapid type analysis over keto code) -------------------------------------
+
+// Live computes the functions reachable from the program's main functions and
+// package initialisers, resolving interface calls only to types that are
+// instantiated in live code (a fixpoint, as in rapid type analysis). Test
+// helpers that live in non-test files but are only used by tests drop out.
+func (g *KGraph) Live() (map[*ssa.Function]bool, map[*types.Named]bool) {
+	if g.liveFns != nil {
+		return g.liveFns, g.liveTypes
+	}
+	var roots []*ssa.Function
+	for _, fn := range g.Fns {
+		if fn.Parent() != nil {
+			continue
+		}
+		if fn.Name() == "main" && fn.Pkg != nil && fn.Pkg.Pkg.Name() == "main" {
+			roots = append(roots, fn)
+		}
+		if fn.Name() == "init" || strings.HasPrefix(fn.Name(), "init#") {
+			roots = append(roots, fn)
+		}
+	}
+	types_ := map[*types.Named]bool{}
+	live := map[*ssa.Function]bool{}
+	for iter := 0; iter < 20; iter++ {
+		reach := g.reachFiltered(roots, nil, types_)
+		changed := len(reach.Parent) != len(live)
+		live = map[*ssa.Function]bool{}
+		for f := range reach.Parent {
+			live[f] = true
+		}
+		n0 := len(types_)
+		for f := range live {
+			Instrs(f, func(_ *ssa.BasicBlock, _ int, ins ssa.Instruction) {
+				var t types.Type
+				switch x := ins.(type) {
+				case *ssa.Alloc:
+					t = x.Type().(*types.Pointer).Elem()
+				case *ssa.MakeInterface:
+					t = x.X.Type()
+				case *ssa.ChangeType:
+					t = x.Type()
+				case *ssa.Convert:
+					t = x.Type()
+				case *ssa.MakeSlice, *ssa.MakeMap, *ssa.MakeChan:
+					t = ins.(ssa.Value).Type()
+				}
+				if n := NamedOf(t); n != nil && n.Obj().Pkg() != nil && IsKeto(n.Obj().Pkg()) {
+					types_[n.Origin()] = true
+				}
+			})
+		}
+		// package-level variables of keto types
+		for _, pk := range g.p.SSA.AllPackages() {
+			if !IsKeto(pk.Pkg) {
+				continue
+			}
+			for _, m := range pk.Members {
+				if gl, ok := m.(*ssa.Global); ok && !g.p.IsTestFile(gl.Pos()) {
+					if n := NamedOf(gl.Type().(*types.Pointer).Elem()); n != nil && n.Obj().Pkg() != nil && IsKeto(n.Obj().Pkg()) {
+						types_[n.Origin()] = true
+					}
+				}
+			}
+		}
+		if !changed && len(types_) == n0 {
+			break
+		}
+	}
+	g.liveFns, g.liveTypes = live, types_
+	return live, types_
+}
+
+func (g *KGraph) reachFiltered(roots []*ssa.Function, skip func(*KEdge) bool, liveTypes map[*types.Named]bool) *KReach {
+	r := &KReach{Parent: map[*ssa.Function]*KEdge{}}
+	var work []*ssa.Function
+	for _, f := range roots {
+		if f == nil {
+			continue
+		}
+		if _, ok := r.Parent[f]; !ok {
+			r.Parent[f] = nil
+			work = append(work, f)
+		}
+	}
+	for len(work) > 0 {
+		f := work[0]
+		work = work[1:]
+		for _, e := range g.Out[f] {
+			if skip != nil && skip(e) {
+				continue
+			}
+			if liveTypes != nil && (e.Kind == "invoke" || e.Kind == "lib-callback") {
+				if recv := e.Callee.Signature.Recv(); recv != nil {
+					if n := NamedOf(recv.Type()); n != nil && n.Obj().Pkg() != nil && IsKeto(n.Obj().Pkg()) && !liveTypes[n.Origin()] {
+						continue
+					}
+				}
+			}
+			if _, ok := r.Parent[e.Callee]; !ok {
+				r.Parent[e.Callee] = e
+				work = append(work, e.Callee)
+			}
+		}
+	}
+	return r
+}
+
+// ReachLive is Reach restricted to receiver types instantiated in live code.
+func (g *KGraph) ReachLive(roots []*ssa.Function, skip func(*KEdge) bool) *KReach {
+	_, lt := g.Live()
+	return g.reachFiltered(roots, skip, lt)
 }
